@@ -557,17 +557,40 @@ theorem delSlice_wf {s : Seq} (h : WF s) (a b c : Option Int) : WF (delSlice s a
 
 /-! ## queries -/
 
-theorem index_spec {s : Seq} (h : Inv s) (x : Item) :
-    index s x = if x ∈ s.items then .ok (s.items.idxOf x) else .error .value := by
-  unfold index
-  by_cases hx : x ∈ s.items
-  · rw [if_pos ((mem_lut_iff h x).mpr hx), if_pos (List.idxOf_lt_length_iff.mpr hx), if_pos hx]
-  · rw [if_neg (fun hl => hx ((mem_lut_iff h x).mp hl)), if_neg hx]
+theorem eqv_name {x y : Item} (h : y.eqv x = true) : y.name = x.name := by
+  unfold Item.eqv at h
+  simp only [Bool.and_eq_true, beq_iff_eq] at h
+  exact h.1.1.1.1
 
-theorem contains_spec {s : Seq} (h : Inv s) (x : Item) : contains s x = decide (x ∈ s.items) := by
+theorem eqv_refl (x : Item) : x.eqv x = true := by simp [Item.eqv]
+
+/-- some entry of the bucket is `==` x iff some item of the list is -/
+theorem any_lut_iff {s : Seq} (h : Inv s) (x : Item) :
+    (s.lut x.name).any (fun y => y.eqv x) = s.items.any (fun y => y.eqv x) := by
+  rw [Bool.eq_iff_iff, List.any_eq_true, List.any_eq_true]
+  constructor
+  · rintro ⟨y, hy, he⟩
+    exact ⟨y, (mem_byName.mp ((h x.name).mem_iff.mp hy)).1, he⟩
+  · rintro ⟨y, hy, he⟩
+    exact ⟨y, (h x.name).mem_iff.mpr (mem_byName.mpr ⟨hy, eqv_name he⟩), he⟩
+
+theorem index_spec {s : Seq} (h : Inv s) (x : Item) :
+    index s x = if s.items.any (fun y => y.eqv x) then .ok (s.items.findIdx (fun y => y.eqv x)) else .error .value := by
+  unfold index
+  rw [any_lut_iff h x]
+  by_cases hx : s.items.any (fun y => y.eqv x) = true
+  · rw [if_pos hx, if_pos hx]
+    have : s.items.findIdx (fun y => y.eqv x) < s.items.length := by
+      rw [List.findIdx_lt_length]
+      obtain ⟨y, hy, he⟩ := List.any_eq_true.mp hx
+      exact ⟨y, hy, he⟩
+    rw [if_pos this]
+  · rw [if_neg hx, if_neg hx]
+
+theorem contains_spec {s : Seq} (h : Inv s) (x : Item) : contains s x = s.items.any (fun y => y.eqv x) := by
   unfold contains
   rw [index_spec h x]
-  by_cases hx : x ∈ s.items <;> simp [hx]
+  by_cases hx : s.items.any (fun y => y.eqv x) = true <;> simp [hx]
 
 theorem collect_spec {s : Seq} (h : WF s) (xs : List Item) (hr : ∀ x ∈ xs, relOk s.isRoot s.isSr x) :
     ∃ r, collect s xs = .ok r ∧ r.items = xs ∧ WF r ∧ Same s r := by
@@ -672,7 +695,11 @@ theorem step_wf {s : Seq} (h : WF s) (op : Op) : WF (step s op).1 ∧ Same s (st
   | append x => exact append_wf h x
   | extend xs => exact extend_wf h xs
   | iadd xs => exact extend_wf h xs
+  | extendSelf => exact extend_wf h s.items
   | insert pos x => exact insert_wf h pos x
+  | insertBad x =>
+    simp only [step, insertBad]
+    cases insertCheck s x <;> exact ⟨h, Same.refl s⟩
   | setItem i x => exact setItem_wf h i x
   | setSlice a b c xs => exact setSlice_wf h a b c xs
   | delItem i => exact delItem_wf h i
@@ -960,6 +987,13 @@ theorem insert_is_program (s : Seq) (pos : Int) (x : Item) : SRContentSeq.insert
   | error e => rfl
   | ok u => simp [lutAddAll]
 
+theorem insertBad_is_program (s : Seq) (x : Item) : insertBad s x = runInsertBad [x] s := by
+  unfold insertBad runInsertBad runWith
+  simp only [Gen.csProg_insert, execProg, execStmt, checkFn, checkAll_single]
+  cases insertCheck s x with
+  | error e => rfl
+  | ok u => rfl
+
 theorem setItem_is_program (s : Seq) (i : Int) (x : Item) : setItem s i x = runSetitem (.int i) [x] s := by
   unfold setItem runSetitem runWith commitReplace
   simp only [Gen.csProg_setitem, execProg, execStmt, checkFn, checkAll_single, resolveIdx]
@@ -1033,7 +1067,7 @@ theorem getNodes_is_program (s : Seq) : getNodes s = execCollect Gen.csProg_get_
 theorem index_is_program (s : Seq) (x : Item) : index s x = execIndex Gen.csProg_index s x := by
   unfold index execIndex
   simp only [Gen.csProg_index, Bool.not_true, Bool.false_eq_true, ↓reduceIte, Bool.true_and]
-  by_cases h : x ∈ s.lut x.name
+  by_cases h : (s.lut x.name).any (fun y => y.eqv x) = true
   · simp [h]
   · simp [h]
 
@@ -1174,14 +1208,18 @@ theorem reverse_spec {s : Seq} (hw : WF s) : ∃ s', reverse s = (s', none) ∧ 
   obtain ⟨s', h1, h2, h3, _⟩ := reverseLoop_spec s.items s.items.length rfl (s.items.length / 2) s (Nat.le_refl _) hw h0
   exact ⟨s', h1, revTo_half s.items s'.items _ rfl h2, h3⟩
 
-/-- `remove(x)` deletes the first occurrence of `x` (it goes through the repaired `index`) -/
-theorem remove_spec {s : Seq} (hw : WF s) (x : Item) (hx : x ∈ s.items) :
+/-- `remove(x)` deletes the first item that is `==` x (it goes through the repaired `index`) -/
+theorem remove_spec {s : Seq} (hw : WF s) (x : Item) (hx : s.items.any (fun y => y.eqv x) = true) :
     ∃ s', remove s x = (s', none) ∧
-      s'.items = s.items.take (s.items.idxOf x) ++ s.items.drop (s.items.idxOf x + 1) ∧ WF s' := by
+      s'.items = s.items.take (s.items.findIdx (fun y => y.eqv x)) ++ s.items.drop (s.items.findIdx (fun y => y.eqv x) + 1) ∧
+      WF s' := by
   have hi := index_spec hw.inv x
   rw [if_pos hx] at hi
-  have hlt : s.items.idxOf x < s.items.length := List.idxOf_lt_length_iff.mpr hx
-  obtain ⟨s', h1, h2, h3, _⟩ := delItem_accepts hw (s.items.idxOf x : Int) _ (normIdx_nat _ _ hlt)
+  have hlt : s.items.findIdx (fun y => y.eqv x) < s.items.length := by
+    rw [List.findIdx_lt_length]
+    obtain ⟨y, hy, he⟩ := List.any_eq_true.mp hx
+    exact ⟨y, hy, he⟩
+  obtain ⟨s', h1, h2, h3, _⟩ := delItem_accepts hw (s.items.findIdx (fun y => y.eqv x) : Int) _ (normIdx_nat _ _ hlt)
   refine ⟨s', ?_, h2, h3⟩
   unfold remove
   simp only [hi, h1]
